@@ -15,7 +15,7 @@ from ..observe import observe
 from .c08 import gen_hypergraph
 from .c18 import connected_hg
 
-TIERS = {"quick": 600, "thorough": 10000}
+TIERS = {"quick": 600, "thorough": 60000}
 WATCHDOG_S = {"quick": 900, "thorough": 7200}
 RULE = ("case kinds by index mod 4: 0 = s-betweenness/closeness of hyperedges (s in 1..3) and of nodes on a random Hypergraph "
         "(all label universes) + relabelled copy; 1 = averaged versions on a TemporalHypergraph (int and str labels, labels "
